@@ -56,8 +56,10 @@ fn decoder_says_ok() -> bool {
 impl ProcessedSerdeObject for KCom {
     fn read<R: Read>(r: &mut R, _: SerdeFormat) -> io::Result<Self> {
         let mut b = [0u8; 1];
-        r.read_exact(&mut b)?;
-        if decoder_says_ok() {
+        if cfg!(feature = "fallible-com") {
+            r.read_exact(&mut b)?;
+        }
+        if !cfg!(feature = "fallible-com") || decoder_says_ok() {
             unsafe { COM_READS += 1 };
             Ok(KCom(b[0]))
         } else {
